@@ -16,6 +16,8 @@ PROP = dict(
     stages=[
         dict(id="deck_asan", harness="c20_deck", flavour="asan", cases={Q: 30000, T: 600000}, timeout={Q: 1500, T: 14400},
              hang="violation", case_timeout=120, max_restarts=60),
+        dict(id="deck_sweep_asan", harness="c20_deck", flavour="asan", cases={Q: 64, T: 3200}, timeout={Q: 1500, T: 14400}, args=["mode=sweep"],
+             hang="violation", case_timeout=1200, max_restarts=60),
         dict(id="file_asan", harness="c20_file", flavour="asan", cases={Q: 20000, T: 400000}, timeout={Q: 1500, T: 14400},
              hang="violation", case_timeout=120, max_restarts=60),
     ],
